@@ -122,8 +122,18 @@ def chunk(prop, seed, idx, n, stream_name):
         if stream.prepare:
             stream.prepare(d, rng)
         descs.append(d)
-    ans, runs, mon = run_cases(stream, descs)
     ex = Exploration()
+    # sub-batches: once a batch has produced property failures the rest of the chunk is skipped — one
+    # counterexample per chunk is enough, and failures such as hangs are expensive (watchdog time-outs)
+    for b in range(0, len(descs), 25):
+        if any(f.kind == 'monitor' for f in ex.failures):
+            break
+        _chunk_batch(prop, stream, stream_name, descs[b:b + 25], ex)
+    return ex
+
+
+def _chunk_batch(prop, stream, stream_name, descs, ex):
+    ans, runs, mon = run_cases(stream, descs)
     for d, a, r, mo in zip(descs, ans, runs, mon):
         ex.evaluations += 1
         if a == 'oof':
@@ -211,7 +221,8 @@ class FlatCheck(runner.Check):
             if key in done:
                 continue
             done.add(key)
-            f.case = runner.shrink(f.case, self.fails_like(f.kind, f.what), shrink_steps)
+            f.case = runner.shrink(f.case, self.fails_like(f.kind, f.what), shrink_steps,
+                                   budget=20 if 'hang' in f.what else 400)
             self.annotate(f)
         return ex
 
